@@ -70,7 +70,7 @@ def gen_cases(ctx):
     thorough = ctx.tier == 'thorough'
     cases = []
     dist = {'p': {}, 'mode': {}, 'points': {}, 'mult_gt1': 0}
-    nkv = 300 if thorough else 50
+    nkv = 120 if thorough else 50
     pmax = 12 if thorough else 6
     for c in range(nkv):
         p = rng.randint(0, pmax) if c >= pmax + 1 else c      # every degree at least once
@@ -270,7 +270,15 @@ def run(ctx):
         if r['status'] != 'Ok':
             continue
         pts = list(range(len(c['pts'])))
-        if ctx.tier != 'thorough' and len(pts) > 16:
+        if c['p'] > 8:
+            # exact rationals of degree > 8 are expensive, prohibitively so at the 53-bit neighbours of
+            # knots: the exact comparison uses up to 8 of the short dyadic points (knots, ends, midpoints,
+            # random); the adjacent-float points are still checked on the implementation
+            # (check_impl_directly: span, sum to one, locality, routes agree)
+            short = [i for i in pts if c['kinds'][i] not in ('after', 'before')]
+            step = max(1.0, len(short) / 8.0)
+            pts = sorted({short[min(len(short) - 1, int(i * step))] for i in range(8)})
+        elif ctx.tier != 'thorough' and len(pts) > 16:
             # quick tier: 16 points per knot vector for the exact comparison, every kind represented
             # (all points are still checked on the implementation by check_impl_directly)
             step = len(pts) / 16.0
